@@ -53,8 +53,12 @@ func New(session *packet.Session) (h *DNSHandler, err error) {
 }
 
 func (h *DNSHandler) Close() error {
-	h.DNSTable = nil
-	h.mdnsCache = nil
+	// Release the tables under the lock. A packet that is still being processed by
+	// the packet loop must find empty maps, not nil ones (assignment to a nil map panics).
+	h.mutex.Lock()
+	defer h.mutex.Unlock()
+	h.DNSTable = make(map[string]packet.DNSEntry)
+	h.mdnsCache = make(map[string]cache)
 	return nil
 }
 
